@@ -181,7 +181,7 @@ for _k, _m in {"C02": "mon_C02", "C09": "mon_C09", "C12": "mon_C12", "C13": "mon
 
 # additions to the claim texts: whole-transaction theorems (coq/Proofs/TxBalances.v) and monitors
 _EXTRA = {
- "C02": "Whole-transaction theorem (C02_withdrawal_transaction_moves_exactly_these_balances): a withdrawal pays the sender exactly the floored pro-rata refunds out of the pool manager, destroys exactly the LP sent and changes no other bank balance. Monitor mon_C02 (x*y/S^2 of constant-product pools never decreases through a deposit / withdrawal; LP supplies move only then).",
+ "C02": "THE LOCKED MINIMUM OVER ALL HISTORIES (LockedLiquidity.v): the pool manager's surplus (balance minus all reserves) never decreases, per denom, through any history (C02_surplus_never_decreases, from the chain induction process_pool); the first deposit into a constant-product pool adds exactly MINIMUM_LIQUIDITY_AMOUNT of the LP denom to it (C02_first_deposit_locks_the_minimum), hence in every later world of every history at least that much LP is held by the pool manager beyond all reserves and can never be redeemed (C02_minimum_liquidity_stays_locked_forever; kernel-evaluated example ending with exactly 1000 locked). Whole-transaction theorem (C02_withdrawal_transaction_moves_exactly_these_balances): a withdrawal pays the sender exactly the floored pro-rata refunds out of the pool manager, destroys exactly the LP sent and changes no other bank balance. Monitor mon_C02 (x*y/S^2 of constant-product pools never decreases through a deposit / withdrawal; LP supplies move only then).",
  "C04": "Whole-transaction theorem (C04_swap_transaction_moves_exactly_these_balances): for a direct swap the new value of EVERY bank balance is given - sender pays the offer to the pool manager, out of it go exactly return (receiver), protocol fee (collector), burn fee (destroyed); nobody else's balance changes in any denom; the route form is C12_route_quote_is_what_the_route_transaction_pays. Monitor mon_C04 (the pool manager's balance moves exactly as the reserves through swaps and routes).",
  "C08": "Whole-transaction theorem (C08_withdrawal_transaction_moves_exactly_these_balances): a regular withdrawal moves exactly the recorded LP amount from the farm manager to the owner and no other balance. Monitor mon_C08 (a transaction only creates or changes positions of its sender).",
  "C09": "Whole-transaction theorem (C09_emergency_withdrawal_transaction_moves_exactly_these_balances): every bank balance after an emergency withdrawal. Monitor mon_C09 (the owner receives between 10% and 100%; a regular withdrawal returns all).",
